@@ -52,6 +52,9 @@ type Exec struct {
 	funcVals  map[string]*ssa.Function
 	ghostFields map[string]*GhostField
 	fnInfos   map[string]*fnInfo
+	nextFocus string // tag given to the next checks (loop invariant being re-established)
+	nextAltGoal2 T
+	nextAltGoal T // the same goal with only the ground earlier invariants as antecedent (focus level)
 	immutableFields map[string]bool // "pkgpath.T.f"
 	objInvs map[string]*ObjInv // "pkgpath.T"
 	immutableHeaps  map[string]bool // heap names excluded from wholesale havoc
@@ -99,7 +102,7 @@ func (x *Exec) addCheck(st *State, fr *Frame, kind string, goal T, pos token.Pos
 		top = top.parent
 	}
 	name := funcDisplayName(top.fn) + "/" + kind
-	x.checks = append(x.checks, &Check{Name: name, Goal: goal, At: st.ev, Where: x.pos(pos), Fn: top.fn.String(), Detail: detail})
+	x.checks = append(x.checks, &Check{Name: name, Goal: goal, At: st.ev, Where: x.pos(pos), Fn: top.fn.String(), Detail: detail, Focus: x.nextFocus, AltGoal: x.nextAltGoal, AltGoal2: x.nextAltGoal2})
 }
 
 // require emits a check and then assumes the goal on the continuing path.
